@@ -21,6 +21,11 @@ def loop(pkg, test, qs=4, ts=16, replay=None, timeout=900, ttimeout=7200, q=1, t
     return d
 
 CHECKS = {
+    "C02": dict(tests=[rapid("storeprops", "TestC02", 24000, 2400000, qs=8)]),
+    "C03": dict(tests=[rapid("storeprops", "TestC03Store", 24000, 1600000, qs=8, replay="TestC03StoreReplay")]),
+    "C08": dict(tests=[rapid("storeprops", "TestC08", 16000, 1600000, qs=8)]),
+    "C09": dict(tests=[rapid("storeprops", "TestC09", 24000, 1600000, qs=8)]),
+    "C11": dict(tests=[rapid("storeprops", "TestC11", 24000, 1600000, qs=8)]),
     "C13": dict(tests=[
         loop("pure", "TestC13SegExhaustive", qs=4, ts=8, replay="TestC13SegReplay"),
         rapid("pure", "TestC13SegRandom", 20000, 4000000, qs=2, replay="TestC13SegRandomReplay"),
